@@ -142,6 +142,8 @@ pub struct St {
     depth: u8,
     canon: String,
     trace: Vec<Op>,
+    /// the commands of the history file the search started from (recorded before the trace)
+    seed: Arc<Vec<String>>,
 }
 
 impl PartialEq for St {
@@ -312,11 +314,33 @@ impl Model for HistModel {
     type Action = Op;
 
     fn init_states(&self) -> Vec<St> {
+        // The search starts from an empty history AND from sessions loaded from files an earlier session (or
+        // another shell) may have left: timestamped and bare entries mixed in both orders, and all
+        // timestamped. States that take many operations to build are depth 0 here.
+        const SEED_FILES: &[&[&str]] = &[&[], &["#1000001", "a", "b"], &["a", "#1000002", "b", "p"], &["#1000001", "a", "#1000002", "b"]];
         let path = self.hist_path();
-        let _ = std::fs::remove_file(&path);
-        let sh = self.new_shell(&path, false);
-        let canon = canon_of(&sh, &[], false);
-        vec![St { sh: Arc::new(Mutex::new(sh)), file: vec![], model: RefModel::default(), depth: 0, canon, trace: vec![] }]
+        let mut out = vec![];
+        for seed in SEED_FILES {
+            let lines: Vec<String> = seed.iter().map(|l| l.to_string()).collect();
+            let bytes: Vec<u8> = if lines.is_empty() { vec![] } else { format!("{}\n", lines.join("\n")).into_bytes() };
+            if bytes.is_empty() {
+                let _ = std::fs::remove_file(&path);
+            } else {
+                std::fs::write(&path, &bytes).expect("write seed history file");
+            }
+            let sh = self.new_shell(&path, false);
+            let model = RefModel { items: RefModel::import(&lines), file: lines.clone(), tsflag: false };
+            // the loaded session must already agree with the model
+            let got: Vec<(String, Option<i64>)> = impl_items(&sh).iter().map(|i| (i.0.clone(), i.1)).collect();
+            let want: Vec<(String, Option<i64>)> = model.items.iter().map(|i| (i.0.clone(), i.1)).collect();
+            if got != want {
+                self.record(&[], "session-vs-model", format!("loaded from {:?}: {:?}", lines, want), format!("{:?}", got));
+            }
+            let canon = canon_of(&sh, &bytes, false);
+            let seed_cmds: Vec<String> = lines.iter().filter(|l| !l.starts_with('#')).cloned().collect();
+            out.push(St { sh: Arc::new(Mutex::new(sh)), file: bytes, model, depth: 0, canon, trace: vec![], seed: Arc::new(seed_cmds) });
+        }
+        out
     }
 
     fn actions(&self, s: &St, actions: &mut Vec<Op>) {
@@ -355,7 +379,7 @@ impl Model for HistModel {
                 }
             }
             // … and saving again without new commands adds nothing
-            let st2 = St { sh: Arc::new(Mutex::new(sh.clone())), file: file.clone(), model: model.clone(), depth: 0, canon: String::new(), trace: vec![] };
+            let st2 = St { sh: Arc::new(Mutex::new(sh.clone())), file: file.clone(), model: model.clone(), depth: 0, canon: String::new(), trace: vec![], seed: s.seed.clone() };
             let (_, file2) = self.step_impl(&st2, Op::Save);
             if file2 != file {
                 self.record(&trace, "second-save-adds", format!("{:?}", got_file), format!("{:?}", file_lines(&file2)));
@@ -365,7 +389,8 @@ impl Model for HistModel {
             // histories of add/save/new-session/toggle only: the file's commands (everything but `#<digits>`
             // timestamp lines) form a subsequence of the recorded sequence — each recorded command at most
             // once and in recording order
-            let recorded: Vec<String> = trace.iter().filter_map(|o| if let Op::Add(i) = o { Some(CMDS[*i as usize].trim().to_string()) } else { None }).collect();
+            let mut recorded: Vec<String> = s.seed.as_ref().clone();
+            recorded.extend(trace.iter().filter_map(|o| if let Op::Add(i) = o { Some(CMDS[*i as usize].trim().to_string()) } else { None }));
             let is_ts = |l: &str| l.len() > 1 && l.starts_with('#') && l[1..].chars().all(|c| c.is_ascii_digit());
             let cmds: Vec<String> = got_file.iter().filter(|l| !is_ts(l)).cloned().collect();
             let mut k = 0;
@@ -403,7 +428,7 @@ impl Model for HistModel {
             }
         }
         let canon = canon_of(&sh, &file, model.tsflag);
-        Some(St { sh: Arc::new(Mutex::new(sh)), file, model, depth: s.depth + 1, canon, trace })
+        Some(St { sh: Arc::new(Mutex::new(sh)), file, model, depth: s.depth + 1, canon, trace, seed: s.seed.clone() })
     }
 
     fn properties(&self) -> Vec<Property<Self>> {
